@@ -178,7 +178,7 @@ func TestC14(t *testing.T) {
 						case "validate-name":
 							q.Method, q.Path = "POST", "/validate?v=1"
 							q.Headers["Content-Type"] = "application/json"
-							q.Body = fmt.Sprintf(`[{"n":%q,"t":946684800}]`, x)
+							q.Body = fmt.Sprintf(`[{"n":%q,"t":1293753600}]`, x)
 						case "partials-source":
 							q.Method, q.Path = "GET", "/partials?v=1"
 							q.Headers["X-STS-SrcName"] = x
